@@ -17,13 +17,12 @@ pub struct Short {
 
 impl Short {
     pub fn bytes(&self) -> Vec<u8> {
-        // explicit per-length construction: no loop for the model checker to unwind
-        match self.len {
-            0 => Vec::new(),
-            1 => vec![self.b[0]],
-            2 => vec![self.b[0], self.b[1]],
-            _ => vec![self.b[0], self.b[1], self.b[2]],
-        }
+        // one allocation of fixed capacity with a symbolic length. (Returning a different
+        // Vec per length makes the buffer pointer a phi of several objects, and CBMC's
+        // symbolic-size memcpy over such a pointer yields spurious bytes in `clone()`.)
+        let mut v = vec![self.b[0], self.b[1], self.b[2]];
+        v.truncate(self.len as usize);
+        v
     }
 
     pub fn get(&self, i: usize) -> u8 {
